@@ -81,3 +81,6 @@ func VerifClearRegistry() {
 // VerifPostIdleTask posts the idle-close task exactly as GetOrCreate does for a
 // route without keepalive.
 func VerifPostIdleTask(s *Stream) { runZeroConsumersCloseTask(s, StreamNoConsumer) }
+
+// Finished reports the task's closed flag (the scheduler drops the task once Next sees it).
+func (t *VerifIdleTask) Finished() bool { return t.task.closed }
